@@ -165,6 +165,11 @@ func seamPart(r *ev.Run) (schedules, points int) {
 			}
 			res := runSeam(sc, prefix)
 			if res.prepErr != "" {
+				if r.NViolations() > 0 { // the sequential handlers already misbehave (reported by part (a)): nothing to schedule here
+					r.Note("seam_scenario_skipped:"+sc.Name, res.prepErr)
+					execs = 1 << 20
+					return
+				}
 				r.HarnessError("C37(d) %s: %s", sc.Name, res.prepErr)
 			}
 			execs++
